@@ -502,6 +502,33 @@ func TestLbvcScenarioHighWatermark(t *testing.T) {
 			cleanup()
 		}
 	}
+	// retention may trim the log past a watermark that does not advance (for example while the ISR is below its
+	// minimum): a committed reader must still not be handed anything above the watermark
+	for _, segBytes := range []int64{64, 150} {
+		l, cleanup := lbvcLog(t, Options{MaxSegmentBytes: segBytes, MaxLogMessages: 2})
+		for i := 0; i < 6; i++ {
+			l.Append([]*Message{lbvcMsg(i, 0)})
+		}
+		l.SetHighWatermark(1)
+		if err := l.Clean(); err == nil && l.OldestOffset() > 1 {
+			if r, err := l.NewReader(0, false); err == nil {
+				hb := make([]byte, 28)
+				for i := 0; i < 3; i++ {
+					ctx, cancel := context.WithTimeout(context.Background(), 150*time.Millisecond)
+					_, off, _, _, err := r.ReadMessage(ctx, hb)
+					cancel()
+					if err != nil {
+						break
+					}
+					if hw := l.HighWatermark(); off > hw {
+						problems = append(problems, fmt.Sprintf("segment bytes %d, retention trimmed the log to [%d..%d] while the high watermark is %d: committed reader was handed offset %d", segBytes, l.OldestOffset(), l.NewestOffset(), hw, off))
+						break
+					}
+				}
+			}
+		}
+		cleanup()
+	}
 	// a follower adopts the leader's watermark before it has the data: the watermark may be ahead of the log end,
 	// and must still never be lowered
 	{
